@@ -60,6 +60,15 @@ pub fn net() -> &'static Net {
                 Err(_) => ok = false,
             }
         }
+        // the same classifier on the IPv6 loopback address (a URL host may be a bracketed IPv6 literal); absent IPv6 is not an error
+        { let ev = events.clone();
+          if let Ok(l) = rt.block_on(TcpListener::bind("[::1]:38901")) { rt.spawn(async move { loop { if let Ok((mut s, _)) = l.accept().await { let ev = ev.clone(); tokio::spawn(async move {
+                let mut buf = vec![0u8; 256];
+                let n = match tokio::time::timeout(Duration::from_millis(600), s.read(&mut buf)).await { Ok(Ok(n)) => n, _ => 0 };
+                let cls = classify(&buf[..n]);
+                ev.lock().unwrap().push(format!("{}:{}", P_PLAIN, cls));
+                if cls == "plain" { let _ = tokio::time::timeout(Duration::from_secs(3), s.read(&mut buf)).await; }
+            }); } } }); } }
         let ev = events.clone();
         match rt.block_on(async { UnixListener::bind(SOCK) }) {
             Ok(l) => { rt.spawn(async move { loop { if let Ok((mut s, _)) = l.accept().await { let ev = ev.clone(); tokio::spawn(async move {
@@ -153,6 +162,13 @@ pub fn gen_setup(rng: &mut Rng, n: usize, out: &mut Vec<String>) {
         let (sch, host, port) = match url::Url::parse(u) { Ok(p) => (p.scheme().to_string(), p.host_str().map(|h| hex(h.as_bytes())).unwrap_or("none".into()), p.port().map(|x| x.to_string()).unwrap_or("none".into())), Err(_) => ("-".into(), "none".into(), "none".into()) };
         out.push(format!("setup {} {} {} {} 0 none none", hex(u.as_bytes()), sch, host, port));
     }
+    // always (when the host has an IPv6 loopback): a bracketed IPv6 literal as the host
+    if std::net::TcpListener::bind("[::1]:0").is_ok() {
+        for u in ["ldap://[::1]:38901", "ldap://[::1]:38901/dc=x"] {
+            let (sch, host, port) = match url::Url::parse(u) { Ok(p) => (p.scheme().to_string(), p.host_str().map(|h| hex(h.as_bytes())).unwrap_or("none".into()), p.port().map(|x| x.to_string()).unwrap_or("none".into())), Err(_) => ("-".into(), "none".into(), "none".into()) };
+            out.push(format!("setup {} {} {} {} 0 none none", hex(u.as_bytes()), sch, host, port));
+        }
+    }
     // oracle-only: unreachable endpoint; a connection timeout bounds StartTLS against a silent server
     out.push(format!("setupx {} unreachable", hex(b"ldap://127.0.0.1:38999")));
     out.push(format!("setupx {} silent-starttls", hex(format!("ldap://127.0.0.1:{}", P_SILENT).as_bytes())));
@@ -235,11 +251,17 @@ pub fn run_tls(args: &[&str]) -> (String, Option<String>) {
     *nt.behaviour.lock().unwrap() = Behaviour { answer: answer.into(), cert: cert.into(), handshake_ok: hs, extra: if extra == "forged" { forged } else { vec![] } };
     nt.events.lock().unwrap().clear();
     let url = format!("{}://localhost:{}", scheme, if scheme == "ldaps" { P_LDAPS } else { P_STARTTLS });
-    let mut st = LdapConnSettings::new().set_starttls(starttls).set_no_tls_verify(noverify);
+    // the settings are a builder: the order of the calls must not matter. Half of the cases (by their arguments) set a generous connection
+    // timeout first, the other half last - after StartTLS, verification and the connector have been chosen
+    let timeout_last = (args.iter().map(|a| a.len()).sum::<usize>() + starttls as usize + noverify as usize) % 2 == 0;
+    let mut st = LdapConnSettings::new();
+    if !timeout_last { st = st.set_conn_timeout(Duration::from_secs(20)); }
+    st = st.set_starttls(starttls).set_no_tls_verify(noverify);
     if connector == "ca" {
         let ca = match std::fs::read("/verif/.cache/certs/ca.pem").ok().and_then(|b| native_tls::Certificate::from_pem(&b).ok()) { Some(c) => c, None => return ("skipped".into(), None) };
         st = st.set_connector(match native_tls::TlsConnector::builder().add_root_certificate(ca).build() { Ok(c) => c, Err(_) => return ("skipped".into(), None) });
     }
+    if timeout_last { st = st.set_conn_timeout(Duration::from_secs(20)); }
     let res = std::panic::catch_unwind(std::panic::AssertUnwindSafe(|| nt.rt.block_on(async move {
         match tokio::time::timeout(Duration::from_millis(2500), LdapConnAsync::with_settings(st, &url)).await {
             Err(_) => "hang".to_string(),
